@@ -2,6 +2,7 @@ package main
 
 import (
 	"fmt"
+	"go/token"
 	"go/types"
 	"sort"
 	"strings"
@@ -69,12 +70,14 @@ func errResult(e *Event) *Term {
 }
 
 func runC18(c *Ctx) {
+	defer checkSessionCloneDeep(c, "C18.R9")
 	c18R1(c)
 	c18R2(c)
 	c18R3(c)
 	c18R4(c)
 	c18R5(c)
 	c18ErrorIdentity(c)
+	checkErrorsIsOperands(c, "C18.R6")
 	c18Dispatch(c)
 	c18Registration(c)
 }
@@ -675,4 +678,66 @@ func c18Registration(c *Ctx) {
 	if n < 4 {
 		c.RoleUnmatched(rule, role, fmt.Sprintf("at least 4 Append methods of endpoint handler lists; found %d", n))
 	}
+}
+
+// C18.R6 (operand order) — errors.Is(err, target) walks the chain of its FIRST
+// operand. With the operands swapped the sentinel's own (empty) chain is walked
+// and every decorated error (WithHint/WithWrap/WithStack — all real ones) stops
+// matching, so the branch that refuses or retries is silently skipped.
+func checkErrorsIsOperands(c *Ctx, rule string) {
+	const role = "error-identity"
+	sentinel := func(v ssa.Value) bool {
+		for i := 0; i < 4; i++ {
+			switch x := v.(type) {
+			case *ssa.MakeInterface:
+				v = x.X
+				continue
+			case *ssa.ChangeInterface:
+				v = x.X
+				continue
+			case *ssa.UnOp:
+				if g, ok := x.X.(*ssa.Global); ok && x.Op == token.MUL {
+					return strings.HasPrefix(g.Name(), "Err") && isSubjectPkg(g.Pkg.Pkg.Path())
+				}
+				return false
+			}
+			return false
+		}
+		return false
+	}
+	n := 0
+	var bad *ssa.Function
+	why := ""
+	for _, fn := range c.P.AllFuncs {
+		if fn.Pkg == nil || !isSubjectPkg(fn.Pkg.Pkg.Path()) {
+			continue
+		}
+		for _, b := range fn.Blocks {
+			for _, ins := range b.Instrs {
+				call, ok := ins.(ssa.CallInstruction)
+				if !ok {
+					continue
+				}
+				cal := call.Common().StaticCallee()
+				if cal == nil || cal.Pkg == nil || cal.Name() != "Is" || len(call.Common().Args) != 2 {
+					continue
+				}
+				if pp := cal.Pkg.Pkg.Path(); pp != "errors" && pp != "github.com/pkg/errors" {
+					continue
+				}
+				n++
+				if a := call.Common().Args; sentinel(a[0]) && !sentinel(a[1]) {
+					if bad == nil {
+						bad = fn
+					}
+					why += fmt.Sprintf("errors.Is at %s has the package error value as its first operand; ", c.P.Pos(ins.Pos()))
+				}
+			}
+		}
+	}
+	if n < 20 {
+		c.RoleUnmatched(rule, role, fmt.Sprintf("at least 20 errors.Is call sites (found %d)", n))
+		return
+	}
+	c.Check(bad == nil, rule, role, bad, "errors-is-operand-order", fmt.Sprintf("in all %d errors.Is call sites the chain that is walked is the received error's, the package error value is the target", n), why, nil)
 }
